@@ -282,7 +282,13 @@ func (g *Gen) NHGPayload() *aftpb.Afts_NextHopGroup {
 	}
 	if g.DupNH && g.chance(0.3) {
 		d := p.NextHop[g.R.Intn(len(p.NextHop))]
-		p.NextHop = append(p.NextHop, &aftpb.Afts_NextHopGroup_NextHopKey{Index: d.Index, NextHop: &aftpb.Afts_NextHopGroup_NextHop{Weight: U(uint64(1 + g.R.Intn(64)))}})
+		// An identical duplicate member: which of two differing duplicates wins is not
+		// specified, so the duplicate repeats the member verbatim.
+		dup := &aftpb.Afts_NextHopGroup_NextHopKey{Index: d.Index, NextHop: &aftpb.Afts_NextHopGroup_NextHop{}}
+		if d.NextHop.GetWeight() != nil {
+			dup.NextHop.Weight = U(d.NextHop.GetWeight().GetValue())
+		}
+		p.NextHop = append(p.NextHop, dup)
 	}
 	if g.chance(0.25) {
 		// Backup groups are not resolved: may name an installed, a missing or this group.
